@@ -57,3 +57,24 @@ void h_alloc(void) {
     delete_TGswSample(g);
     VERIF_REACH();
 }
+
+#ifdef H_ALLOC_BK
+/* life cycle of the coefficient-domain bootstrapping key: n TGSW samples + a key-switching key with k*N rows (extracted dimension),
+ * through the real init_/destroy_, the real constructors and the real key-switching-key constructor; small concrete n, N, t, basebit */
+void h_alloc_bk(void) {
+    const int32_t n = 2, N = 2, t = 2, bb = 1;
+    LweParams ip; *(int32_t *)&ip.n = n;
+    TLweParams tlp; *(int32_t *)&tlp.N = N; *(int32_t *)&tlp.k = VERIF_K; *(int32_t *)&tlp.extracted_lweparams.n = VERIF_K * N;
+    TGswParams gp; *(int32_t *)&gp.l = VERIF_L; *(const TLweParams **)&gp.tlwe_params = &tlp; *(int32_t *)&gp.kpl = (VERIF_K + 1) * VERIF_L;
+    LweBootstrappingKey bk;
+    init_LweBootstrappingKey(&bk, t, bb, &ip, &gp);
+    __CPROVER_assert(bk.in_out_params == &ip && bk.bk_params == &gp && bk.accum_params == &tlp && bk.extract_params == &tlp.extracted_lweparams, "parameter pointers");
+    VERIF_SIZE_GUARD(bk.bk, (size_t)n * sizeof(TGswSample));
+    __CPROVER_assert(bk.ks->n == VERIF_K * N && bk.ks->t == t && bk.ks->basebit == bb && bk.ks->out_params == &ip, "key-switching key has k*N rows towards the input parameters");
+    VERIF_SIZE_GUARD(bk.ks->ks0_raw, (size_t)(VERIF_K * N * t * (1 << bb)) * sizeof(LweSample));
+    VERIF_SIZE_GUARD(bk.ks->ks[VERIF_K * N - 1][t - 1][(1 << bb) - 1].a, (size_t)n * sizeof(Torus32));
+    VERIF_SIZE_GUARD(bk.bk[n - 1].all_sample[(VERIF_K + 1) * VERIF_L - 1].a[VERIF_K].coefsT, (size_t)N * sizeof(Torus32));
+    destroy_LweBootstrappingKey(&bk);
+    VERIF_REACH();
+}
+#endif
